@@ -15,9 +15,9 @@ import (
 // φ(defaultFileMode, markExecutableForReaders(defaultFileMode)) under a test of
 // the entry's Executable field — either directly or through a helper's
 // parameter that every caller supplies with that value.
-func c18AppliedMode(c *eng.Ctx) {
-	mv := c.MustFunc("R4", corePkg, "transitioner.findAndMoveStagedFileIntoPlace")
-	sw := c.MustFunc("R4", corePkg, "transitioner.swapFile")
+func c18AppliedMode(c *eng.Ctx, rule string) {
+	mv := c.MustFunc(rule, corePkg, "transitioner.findAndMoveStagedFileIntoPlace")
+	sw := c.MustFunc(rule, corePkg, "transitioner.swapFile")
 	if mv == nil || sw == nil {
 		return
 	}
@@ -25,6 +25,19 @@ func c18AppliedMode(c *eng.Ctx) {
 		phi, ok := eng.Unwrap(v).(*ssa.Phi)
 		if !ok {
 			return false
+		}
+		// the base of both alternatives is the endpoint's default file mode (which
+		// is validated to carry no executable bits): a base that may already
+		// contain them — e.g. the file's existing mode — could never be made
+		// non-executable again
+		for _, e := range phi.Edges {
+			if call, ok := e.(*ssa.Call); ok && eng.CalleeName(call) == "synchronization/core.markExecutableForReaders" {
+				if eng.Render(call.Call.Args[0]) != "p0.defaultFileMode" {
+					return false
+				}
+			} else if eng.Render(e) != "p0.defaultFileMode" {
+				return false
+			}
 		}
 		for i, e := range phi.Edges {
 			call, ok := e.(*ssa.Call)
@@ -86,10 +99,10 @@ func c18AppliedMode(c *eng.Ctx) {
 				ok = callers > 0 && all
 				how += " (parameter; checked at its callers)"
 			}
-			c.Check("R4", "file-mode-carries-executability:"+strings.TrimPrefix(eng.FuncName(fn), "(*synchronization/core.transitioner).")+"/"+strings.TrimPrefix(name, "(*filesystem.Directory)."), call.Pos(), ok, "a file put in place gets the mode chosen on the entry's Executable bit (default mode, made executable when the bit is set)", how[:min(200, len(how))])
+			c.Check(rule, "file-mode-carries-executability:"+strings.TrimPrefix(eng.FuncName(fn), "(*synchronization/core.transitioner).")+"/"+strings.TrimPrefix(name, "(*filesystem.Directory)."), call.Pos(), ok, "a file put in place gets the mode chosen on the entry's Executable bit (default mode, made executable when the bit is set)", how[:min(200, len(how))])
 		}
 	}
 	if n < 3 {
-		c.Problem("R4", "expected ≥3 permission-setting calls while placing files (staged path, cross-device intermediate, in-place swap), found %d", n)
+		c.Problem(rule, "expected ≥3 permission-setting calls while placing files (staged path, cross-device intermediate, in-place swap), found %d", n)
 	}
 }
